@@ -6,5 +6,8 @@ import GoImap.Props.C17
 #print axioms GoImap.C17.no_plain_creds_table
 #print axioms GoImap.C17.no_plain_creds
 #print axioms GoImap.C17.preauth_refused
+#print axioms GoImap.C17.preauth_refused_new
+#print axioms GoImap.C17.preauth_refused_dial
+#print axioms GoImap.C17.dial_without_check_counterexample
 #print axioms GoImap.C17.keep_counterexample
 #print axioms GoImap.C17.keep_client_counterexample
